@@ -406,7 +406,10 @@ def run(ctx: Ctx):
         ctx.build_props()
         run_guarded(ctx, stage_text_corr)
         run_guarded(ctx, stage_offset_corr, progs)
-    run_guarded(ctx, stage_oracle, progs)
+    # small programs whose every gap is tried: self-documenting f-string fields behind non-ASCII text, multi-line holders whose first line is longer than the last
+    extra = ["x = f'é {a = }'\n", "y = f'ü{b=!r:>10} ñ {c = } {d  =  }'\n", "z = f'''ö\n {e = } é {f=}'''\n", 'w = foo(a,  b ,\n    c)\n', 'v = [aaaa,   bbbb,\n]\n',
+             "s = f'{ {1, 2} }' + f'é{ (x) = }'\n", 'def f():\n  if a:\n    x = 1  # c\ny = 2\n', '@d1\n@d2(a,  b)\ndef g(a,  b ,\n      c): pass\n']
+    run_guarded(ctx, stage_oracle, extra + progs)
     run_guarded(ctx, stage_edges, progs)
 
 
